@@ -126,7 +126,7 @@ def run(
                 res.prints.append(json.loads(json.loads(s)))
             except Exception:
                 res.malformed.append(s[:200])
-    m = re.search(r"Error: Invariant (\S+) is violated", out)
+    m = re.search(r"^Error: Invariant (\S+) is violated", out, re.M)
     if m:
         res.violated = m.group(1)
     m = re.search(r"Error: (Action property|Temporal properties?) (\S+)?.*violated", out)
@@ -134,8 +134,8 @@ def run(
         res.violated = m.group(2) or "property"
     if rc == 124:
         res.error = "timeout"
-    elif res.violated is None and ("Error:" in out or rc != 0):
-        em = re.search(r"Error: (.*)", out)
+    elif res.violated is None and (re.search(r"^Error:", out, re.M) or rc != 0):
+        em = re.search(r"^Error: (.*)", out, re.M)
         res.error = em.group(1)[:500] if em else f"rc={rc}"
     if not keep and res.ok:
         shutil.rmtree(os.path.join(bdir, "meta"), ignore_errors=True)
